@@ -6,6 +6,8 @@ at argument terms that occur in the verification condition (no quantifier reache
 """
 import itertools
 
+UF = '__CPROVER_uninterpreted_'
+
 
 def _f(name, *args):
     return f'(r.{name} {" ".join(args)})'
@@ -65,6 +67,10 @@ def instantiate(it, sets):
                             continue
                         a, b, c, d = exps[i], exps[j], exps[k], exps[l]
                         ax.append(f'(assert (=> (= (- {a} {b}) (- {c} {d})) (= (* {_f("exp", a)} {_f("exp", d)}) (* {_f("exp", b)} {_f("exp", c)}))))')
+    if 'log_recip' in sets:
+        # ln(a) + ln(b) = 0 whenever a b = 1 (a, b > 0)
+        for a, b in itertools.combinations_with_replacement(logs, 2):
+            ax.append(f'(assert (=> (and (> {a} 0.0) (= (* {a} {b}) 1.0)) (= (+ {_f("log", a)} {_f("log", b)}) 0.0)))')
     if 'log_mono' in sets:
         for a, b in itertools.combinations(logs, 2):
             ax.append(f'(assert (=> (and (> {a} 0.0) (> {b} 0.0)) (= (< {a} {b}) (< {_f("log", a)} {_f("log", b)}))))')
@@ -79,6 +85,11 @@ def instantiate(it, sets):
         coss = [a for (a,) in apps.get('cos', [])]
         for a in sorted(set(sins) | set(coss)):
             ax.append(f'(assert (= (+ (* {_f("sin", a)} {_f("sin", a)}) (* {_f("cos", a)} {_f("cos", a)})) 1.0))')
+    if 'gamma_pos' in sets:
+        # Gamma(x) > 0 for x > 0 (harness-level uninterpreted gamma = h_f1 with id 1000)
+        for args in apps.get('h_f1', []):
+            if len(args) == 2 and args[0] in ('#b' + bin(1000)[2:].zfill(32), '(_ bv1000 32)'):
+                ax.append(f'(assert (=> (> {args[1]} 0.0) (> ({UF}h_f1 {args[0]} {args[1]}) 0.0)))')
     pows = apps.get('pow', [])
     if 'pow_pos' in sets:
         for b, e in pows:
